@@ -41,7 +41,7 @@ LISTED = False                  # set by run(): KNOWN_ID is listed in known_find
 # The fix (OpenForWriteIfNeeded writes one newline before the first append when the non-empty log does not end in LF) is not yet in
 # BuildLogDefs.record_append.  While False, the implementation's expected bytes are derived from the model's by exactly that rule
 # (see expected_impl_from_model); flip to True when the model has it -- nothing else needs to change.
-MODEL_HAS_NEWLINE_FIX = False
+MODEL_HAS_NEWLINE_FIX = True
 LONG_ALPHA = bytes(b'abcdefgh /.\xc3\xa9-_01'[i % 17] for i in range(256))
 
 # ------------------------------------------------------------------------------------------------------------------
@@ -185,8 +185,9 @@ def judge_after_tear(prefix, s2, hist, load, vd, fbytes=None, recompacted_expect
             continue
         if listed and (v[3], v[2]) in {(w[3], w[2]) for w in written[n]}:
             vd.stats['tear:record intact except timing field (listed defect)'] += 1; continue
-        what = 'entry %s: this (hash, mtime) pair was never written for that output (written: %s)' % (
-            fmt_rec(n, v), '; '.join(fmt_rec(n, w) for w in sorted(written[n])[:4]) or 'nothing')
+        what = 'entry %s: %s (written: %s)' % (
+            fmt_rec(n, v), 'an appended record is not intact (start/end differ)' if (v[3], v[2]) in {(w[3], w[2]) for w in written[n]} else
+            'this (hash, mtime) pair was never written for that output', '; '.join(fmt_rec(n, w) for w in sorted(written[n])[:4]) or 'nothing')
         if merged and merged == (n, v):
             what = 'log torn after %r, next record %r: the two were read as ONE line (no newline before the append) => %s' % (frag[-60:], py_render(s2[0])[:60], what)
             if listed:
@@ -356,7 +357,7 @@ class Runner:
         for idx, rc, err in fails[:1]: raise RuntimeError('buildlog_run failed (rc=%s) on %s: %s' % (rc, lines[idx][:100], err[-300:]))
         return res
     def apply_newline_rule(self, lines, mres, jobs):
-        """MODEL_HAS_NEWLINE_FIX = False: turn the model's results into what the implementation must produce (see expected_impl_from_model)"""
+        """MODEL_HAS_NEWLINE_FIX = True: turn the model's results into what the implementation must produce (see expected_impl_from_model)"""
         todo = []
         for k, l in enumerate(lines):
             if mres[k] is None: continue
@@ -531,6 +532,12 @@ def _run(ctx, runner):
     for i in range(10 if quick else 80):
         names = g.names(rnd.randrange(3, 25))
         medium.append((names, g.records(rnd.randrange(9, 121), names)))
+    # record lines whose length sweeps across 1024 / 2048 / 4096 bytes (plausible sizes of an internal formatting buffer)
+    for lo, hi in ((985, 1030), (2010, 2052), (4058, 4100)) if not quick else ((985, 1030), (2030, 2050)):
+        names = [b'sweep/%d/' % n + b'x' * (n - 7 - len(str(n))) for n in range(lo, hi)]
+        names = [b'short1', b'short2'] + names
+        medium.append((names, [Rec(nm, 1, 2, 3 + i, 0, b'sweep-cmd-%d' % i) for i, nm in enumerate(names)]))
+        for i in range(len(names)): g.cmds[b'sweep-cmd-%d' % i] = None
     longs = []                                  # names around and beyond the 256 KiB line buffer
     for extra in ([-1, 0, 1, 40000] if quick else [-2, -1, 0, 1, 2, 63, 40000, 340000]):
         # line = "5\t6\t7\t" + name + "\tabc\n" = name + 11 bytes; extra = line length - B
